@@ -87,9 +87,17 @@ def gen_program(rng: random.Random) -> dict:
         if c < 0.75 and labels:
             k = rng.choice(list(labels))
             return [sym(k)], labels[k]
-        if c < 0.82 and len(labels) > 1:
+        if c < 0.79 and len(labels) > 1:
             a, b = rng.sample(list(labels), 2)
             return [sym(a), ["op", "-"], sym(b)], labels[a] - labels[b]
+        if c < 0.82:
+            # chains of operators of one level, left to right: a length minus a header minus one, a value shifted twice
+            a, b, k = rng.randrange(0x100, 0x10000), rng.randrange(1, 0x100), rng.randrange(1, 9)
+            if labels and rng.random() < 0.5:
+                la = rng.choice(list(labels))
+                return [sym(la), ["op", "-"], num(b), ["op", "-"], num(k)], labels[la] - b - k
+            return rng.choice([([num(a), ["op", "-"], num(b), ["op", "-"], num(k)], a - b - k), ([num(a), ["op", ">>"], num(4), ["op", ">>"], num(k % 5)], a >> 4 >> (k % 5)),
+                               ([num(a), ["op", "-"], num(b), ["op", "+"], num(k)], a - b + k), ([num(a), ["op", "<<"], num(2), ["op", ">>"], num(1)], a << 2 >> 1)])
         if c < 0.92 and fwd:
             k = rng.choice(fwd)
             if rng.random() < 0.5:
@@ -110,9 +118,17 @@ def gen_program(rng: random.Random) -> dict:
         # data directives inside a macro: the first argument is a label of the call site whose name is also the macro's second parameter
         prog.append({"k": "macro", "n": "mitem", "ps": ["ptext", fwd[0]], "b": [{"k": "data", "d": "dw", "es": [[sym("ptext")]]}, {"k": "data", "d": "dl", "es": [[sym("ptext")], [sym(fwd[0])]]},
                                                                                {"k": "data", "d": "db", "es": [[sym(fwd[0])]]}]})
+    stub = rng.random() < 0.35
+    if stub:
+        # a helper whose body is switched off (trace output of a debug build): applying it emits nothing and moves nothing
+        prog.append({"k": "assign", "n": "dbgq", "e": E(0)})
+        prog.append({"k": "macro", "n": "traceq", "ps": ["pv"], "b": [{"k": "if", "c": E("dbgq"), "t": [{"k": "data", "d": "dl", "es": [[sym("pv")]]}]}]})
+        prog.append({"k": "macro", "n": "emptyq", "ps": [], "b": []})
     try:
         for _ in range(rng.randint(2, 8)):
             c = rng.random()
+            if stub and rng.random() < 0.4:
+                prog.append(rng.choice([{"k": "call", "n": "traceq", "as": [E(0x111111)]}, {"k": "call", "n": "emptyq", "as": []}]))
             if item_macro and rng.random() < 0.3:
                 prog.append({"k": "call", "n": "mitem", "as": [[sym(fwd[0])], E(2)]})
                 pending.append((len(expected), 2, [sym(fwd[0])]))
